@@ -1,5 +1,7 @@
 import DoviModel.Model.RpuWrite
 import DoviModel.Gen.SourceLayouts
+import DoviModel.Gen.SourceRules
+import DoviModel.Model.Json
 /-!
 # Source tie for the data-driven part of the RPU syntax
 
@@ -44,5 +46,84 @@ theorem signed_from_source : Src.signedFields = [(2, 6)] := by decide
 
 theorem signed_field_is_l2_13 (level w : Nat) (v : Int) :
     writeBlockField level w v = (if level == 2 && w == 13 then writeSigned16 13 v else writeN w v.toNat) := rfl
+
+/-! ## validation rules (tools/gen_source_rules.py → Gen/SourceRules.lean) -/
+
+/-- the struct fields of every block level, in declaration order, are the names (and hence the `vals` positions)
+the model uses -/
+theorem block_names_from_source (level : Nat) : Src.blockFieldNames level = blockFieldNames level := by
+  unfold Src.blockFieldNames blockFieldNames
+  split <;> first | rfl | (split <;> first | rfl | simp_all)
+
+private theorem beq_iff {a b : Bool} : a = b ↔ (a = true ↔ b = true) := by
+  cases a <;> cases b <;> simp
+
+/-- every level's `validate()` in the source is the model's `blockValidate`, for every block -/
+theorem block_validate_from_source (b : Block) : Src.blockValidate b = blockValidate b := by
+  obtain ⟨level, length, vals⟩ := b
+  unfold Src.blockValidate blockValidate
+  simp only []
+  split <;> first
+    | rfl
+    | (simp only [validBlockLength]; rw [beq_iff]; simp [List.range, List.range.loop, Bool.and_assoc, and_assoc] <;> omega)
+    | (split <;> first | rfl | simp_all)
+
+/-- `RpuDataHeader::validate(profile)` in the source is the model's `Header.validate` -/
+theorem header_validate_from_source (h : Header) (profile : Nat) :
+    Src.headerValidate h profile = h.validate profile := by
+  unfold Src.headerValidate Header.validate
+  split <;> simp_all
+
+/-- `VdrDmData::validate()` in the source is the model's `DmData.validate` -/
+theorem dm_validate_from_source (d : DmData) : Src.dmValidate d = d.validate := by
+  cases hc : d.compressed <;> cases h29 : d.cmv29 <;> cases h40 : d.cmv40 <;>
+    simp [Src.dmValidate, DmData.validate, hc, h29, h40]
+
+def countRule (bs : List Block) (r : Nat × Bool × Nat) : Bool :=
+  if r.2.1 then countLevel bs r.1 == r.2.2 else countLevel bs r.1 ≤ r.2.2
+
+/-- `CmV29DmData::validate`: allowed levels and count limits as written in the source -/
+theorem cmv29_validate_from_source (c : Container) :
+    c.validate29 = (c.blocks.all (fun b => Src.cmv29Allowed.contains b.level) && Src.cmv29Counts.all (countRule c.blocks)) := by
+  simp [Container.validate29, Src.cmv29Allowed, Src.cmv29Counts, cmv29Levels, countRule, Bool.and_assoc]
+
+/-- `CmV40DmData::validate`: allowed levels and count limits as written in the source -/
+theorem cmv40_validate_from_source (c : Container) :
+    c.validate40 = (c.blocks.all (fun b => Src.cmv40Allowed.contains b.level) && Src.cmv40Counts.all (countRule c.blocks)) := by
+  simp [Container.validate40, Src.cmv40Allowed, Src.cmv40Counts, cmv40Levels, countRule, Bool.and_assoc]
+
+/-- the level lists that decide which container a parsed block belongs to are the source's `ALLOWED_BLOCK_LEVELS` -/
+theorem allowed_levels_from_source : Src.cmv29Allowed = cmv29Levels ∧ Src.cmv40Allowed = cmv40Levels := by decide
+
+/-- `RpuDataHeader::get_dovi_profile` in the source is the model's classification, for every header -/
+theorem profile_from_source (h : Header) : Src.getDoviProfile h = h.getDoviProfile := by
+  unfold Src.getDoviProfile Header.getDoviProfile
+  split <;> simp_all
+
+/-- `RpuDataNlq::is_mel` in the source is the model's MEL rule -/
+theorem mel_from_source (n : Nlq) : Src.isMel n = n.isMel := rfl
+
+/-- `RpuDataMapping::validate(profile)` in the source — the profile arms before the per-curve loop and the two
+rules after it — around the model's per-curve rule, is the model's `Mapping.validate` -/
+theorem mapping_validate_from_source (m : Mapping) (profile : Nat) :
+    m.validate profile =
+      (Src.mappingValidateHead m profile && m.curves.all Curve.piecesOk && Src.mappingValidateTail m) := by
+  unfold Mapping.validate Src.mappingValidateHead Src.mappingValidateTail
+  by_cases h5 : profile = 5
+  · subst h5; cases hp : m.nlq_pred_pivot_value <;> simp [Bool.and_assoc]
+  by_cases h7 : profile = 7
+  · subst h7; cases hp : m.nlq_pred_pivot_value <;> simp [Bool.and_assoc]
+  by_cases h8 : profile = 8
+  · subst h8; cases hp : m.nlq_pred_pivot_value <;> simp [Bool.and_assoc]
+  · have hm : (match profile with
+        | 5 => m.nlq_method_idc.isNone && m.nlq_num_pivots_minus2.isNone && m.nlq_pred_pivot_value.isNone
+        | 7 => m.nlq_pred_pivot_value.isSome &&
+            (match m.nlq_pred_pivot_value with
+             | some pv => pv.foldl (· + ·) 0 % 65536 == 1023
+             | none => true)
+        | 8 => m.nlq_method_idc.isNone && m.nlq_num_pivots_minus2.isNone && m.nlq_pred_pivot_value.isNone
+        | _ => true) = true := by
+      split <;> simp_all
+    simp [h5, h7, h8, Bool.and_assoc]
 
 end Dovi.SourceTie
